@@ -42,6 +42,20 @@ def _valid_sk(x):
     return T.raw_op('VALID_SK', x)
 
 
+def _contract(ev, fr, facts, value):
+    """A library call that raises unless `facts` hold.  Normally the facts become must-facts of the continuation (the
+    raising path leaves the function); inside a try body whose handlers may catch the library's exception the two
+    outcomes are kept apart as an explicit case analysis."""
+    if getattr(ev, 'explicit_contracts', 0):
+        cond = T.TRUE
+        for f in facts:
+            cond = T.and_(cond, f)
+        return T.phi(cond, value, T.raise_('LibraryError'))
+    for f in facts:
+        fr.facts = fr.facts.add(f)
+    return value
+
+
 class UnmodelledKeyword(Exception):
     pass
 
@@ -264,6 +278,15 @@ def _ext_call(ev, dotted, args, kwargs, fr, node):
     if dotted.startswith('builtins.'):
         if short == 'len':
             return T.len_(args[0])
+        if short == 'getattr' and len(args) in (2, 3) and not kwargs and T.is_const(args[1]) and isinstance(args[1][1], str):
+            v = ev.getattr(args[0], args[1][1], fr, node)
+            if T.is_op(v, 'ATTR') and T.tag(args[0]) == 'obj':
+                # an object whose fields are all known (built by its constructor) simply does not have it
+                return args[2] if len(args) == 3 else T.raise_('AttributeError')
+            if len(args) == 3 and T.is_op(v, 'ATTR'):
+                # attribute of an object of unknown shape, with a default: present or absent is not known
+                return T.phi(T.raw_op('HASATTR', args[0], args[1]), v, args[2])
+            return v
         if short == 'int':
             return _int_cast(ev, args, kwargs, fr)
         if short == 'str':
@@ -416,29 +439,22 @@ def _ext_call(ev, dotted, args, kwargs, fr, node):
         return T.raw_op('RANDBITS' if short == 'getrandbits' else 'RANDVAL', T.raw_op('PRNG', T.const(dotted)), *args)
     # ---------------------------------------------------------------- libsecp256k1 wrapper
     if dotted == 'pysecp256k1.ec_seckey_verify':
-        fr.facts = fr.facts.add(_valid_sk(args[0]))
-        return T.NONE
+        return _contract(ev, fr, [_valid_sk(args[0])], T.NONE)
     if dotted == 'pysecp256k1.ec_pubkey_create':
-        fr.facts = fr.facts.add(_valid_sk(args[0]))
-        return T.pt(args[0])
+        return _contract(ev, fr, [_valid_sk(args[0])], T.pt(args[0]))
     if dotted == 'pysecp256k1.ec_pubkey_serialize':
         a = _kw(args, kwargs, ['pubkey', 'compressed'], {'compressed': T.TRUE})
         return T.sec(a['pubkey'], T.truth(a['compressed']))
     if dotted == 'pysecp256k1.ec_pubkey_parse':
-        fr.facts = fr.facts.add(T.raw_op('ON_CURVE', args[0]))
-        return T.parse_pt(args[0])
+        return _contract(ev, fr, [T.raw_op('ON_CURVE', args[0])], T.parse_pt(args[0]))
     if dotted == 'pysecp256k1.ec_seckey_tweak_add':
         k, t = args[0], args[1]
-        fr.facts = fr.facts.add(T.lt(T.int_(t, T.const('big')), T.CURVE_N))
-        fr.facts = fr.facts.add(T.not_(T.eq(T.sk_add_int(k, t), T.const(0))))
-        fr.facts = fr.facts.add(_valid_sk(k))
-        return T.sk_add(k, t)
+        return _contract(ev, fr, [T.lt(T.int_(t, T.const('big')), T.CURVE_N), T.not_(T.eq(T.sk_add_int(k, t), T.const(0))),
+                                  _valid_sk(k)], T.sk_add(k, t))
     if dotted == 'pysecp256k1.ec_pubkey_tweak_add':
         p, t = args[0], args[1]
         res = T.pt_add(p, T.pt(t))
-        fr.facts = fr.facts.add(T.lt(T.int_(t, T.const('big')), T.CURVE_N))
-        fr.facts = fr.facts.add(T.not_(T.eq(res, T.INFINITY)))
-        return res
+        return _contract(ev, fr, [T.lt(T.int_(t, T.const('big')), T.CURVE_N), T.not_(T.eq(res, T.INFINITY))], res)
     if dotted.startswith('pysecp256k1.'):
         return T.opaque('unknown secp function %s' % short)
     # ---------------------------------------------------------------- ecdsa
@@ -446,15 +462,13 @@ def _ext_call(ev, dotted, args, kwargs, fr, node):
         a = _kw(args, kwargs, ['string', 'curve'], {'curve': T.ext('ecdsa.curves.NIST192p')})
         if a['curve'] != SECP_CURVE:
             return T.raw_op('ECDSA_SK_OTHERCURVE', a['string'], a['curve'])
-        fr.facts = fr.facts.add(_valid_sk(a['string']))
-        return T.raw_op('ECDSA_SK', a['string'])
+        return _contract(ev, fr, [_valid_sk(a['string'])], T.raw_op('ECDSA_SK', a['string']))
     if dotted == 'ecdsa.SigningKey.from_secret_exponent':
         a = _kw(args, kwargs, ['secexp', 'curve'], {'curve': T.ext('ecdsa.curves.NIST192p')})
         if a['curve'] != SECP_CURVE:
             return T.raw_op('ECDSA_SK_OTHERCURVE', a['secexp'], a['curve'])
         b = T.ser(a['secexp'], T.const(32), T.const('big'))
-        fr.facts = fr.facts.add(_valid_sk(b))
-        return T.raw_op('ECDSA_SK', b)
+        return _contract(ev, fr, [_valid_sk(b)], T.raw_op('ECDSA_SK', b))
     if dotted == 'ecdsa.VerifyingKey.from_string':
         a = _kw(args, kwargs, ['string', 'curve', 'hashfunc', 'validate_point'],
                 {'curve': T.ext('ecdsa.curves.NIST192p'), 'validate_point': T.TRUE})
@@ -463,8 +477,7 @@ def _ext_call(ev, dotted, args, kwargs, fr, node):
         if T.truth(a['validate_point']) != T.TRUE:
             # the documented switch that skips the on-curve check: no validity contract, a different operator
             return T.raw_op('PARSE_PT_UNVALIDATED', a['string'], a['validate_point'])
-        fr.facts = fr.facts.add(T.raw_op('ON_CURVE', a['string']))
-        return T.parse_pt(a['string'])
+        return _contract(ev, fr, [T.raw_op('ON_CURVE', a['string'])], T.parse_pt(a['string']))
     if dotted == 'ecdsa.VerifyingKey.from_public_point':
         a = _kw(args, kwargs, ['point', 'curve', 'hashfunc', 'validate_point'], {'curve': T.ext('ecdsa.curves.NIST192p')})
         if a['curve'] != SECP_CURVE:
@@ -705,6 +718,18 @@ def method_call(ev, recv, name, args, kwargs, fr, node):
         if node is not None and isinstance(node.func.value, ast.Name) and node.func.value.id in fr.env:
             var = node.func.value.id
             cur = fr.env[var]
+            if name not in ('write', 'writelines', 'close', 'flush', 'seek'):
+                fr.mutated.add(var)
+            if name == 'update' and T.tag(cur) == 'dict' and len(args) == 1 and not kwargs and T.tag(args[0]) == 'dict' \
+                    and all(T.is_const(k_) for k_, _ in cur[1]) and all(T.is_const(k_) for k_, _ in args[0][1]):
+                pairs = [(k_, v_) for k_, v_ in cur[1]]
+                for k_, v_ in args[0][1]:
+                    if any(k0 == k_ for k0, _ in pairs):
+                        pairs = [(k0, (v_ if k0 == k_ else v0)) for k0, v0 in pairs]
+                    else:
+                        pairs.append((k_, v_))
+                fr.env[var] = T.dct(pairs)
+                return T.NONE
             if name == 'append' and T.tag(cur) == 'list' and len(args) == 1:
                 fr.env[var] = T.lst(list(cur[1]) + [args[0]])
                 return T.NONE
